@@ -336,6 +336,7 @@ class Facts:
         self.by_qn = {}
         self.by_file = {}
         self.by_key = {}
+        self.by_lid = {}
         self.classes = {}
         self.enums = {}
         self.aliases = {}
@@ -355,6 +356,8 @@ class Facts:
                 self.by_qn.setdefault(f.qn, []).append(f)
                 self.by_file.setdefault(f.relfile, []).append(f)
                 self.by_key.setdefault(f.key, []).append(f)
+                if "lid" in rf:
+                    self.by_lid.setdefault(rf["lid"], []).append(f)
             for c in d["classes"]:
                 if c["key"] not in self.classes:
                     for fl in c["fields"]:
@@ -409,7 +412,7 @@ class Facts:
         out = []
         for n in f.nodes():
             if n["k"] == "lambda":
-                for g in self.by_key.get(n["key"], []):
+                for g in self.by_lid.get(n.get("lid"), []):
                     out.append((n, g))
         return out
 
